@@ -14,7 +14,7 @@ ASSUMPTIONS = ['how & ranks against + and * is not stated: & operands are atoms,
                'a zero divisor under a comparison or & is C08\'s subject: such cases are excluded and counted',
                'reference = native evaluation of the generating tree (Python int/float operators in tree order, so results are bit-identical)']
 
-VARS = {'v_a': 3, 'v_b': 7, 'v_c': 0.5, 'v_d': 12, 'v_e': 2.25, 'v_f': 1}
+VARS = {'v_a': 3, 'v_b': 7, 'v_c': 0.5, 'v_d': 12, 'v_e': 2.25, 'v_f': 1, 'v_one': 1, 'v_zero': 0}
 CELLS = {'B2': 5, 'C3': 11, 'D4': 0.25, 'AA10': 4}
 def _strict(f):
     def g(*a):
@@ -41,7 +41,9 @@ leaf = st.one_of(leaf, leaf, leaf, ev_leaf)
 arith_tree = gf.tree_strategy(leaf, calls=[('SUM', (1, 3)), ('ABS', (1, 1)), ('ID', (1, 1))], max_leaves=10)
 int_tree = gf.tree_strategy(int_leaf, calls=[('ID', (1, 1))], ops=['+', '-', '*'], max_leaves=4)
 
-amp_operand = st.one_of(int_leaf, int_leaf.map(lambda l: ['neg', l]), int_tree.map(lambda t: ['paren', t]), int_tree.map(lambda t: ['call', 'ID', [t]]))
+blank_leaf = st.sampled_from([['cell', 'E5'], ['var', 'NULL'], ['cell', '$E$5']])        # nothing answers E5: a blank, which & joins as nothing and which equals ""
+amp_operand = st.one_of(int_leaf, int_leaf, int_leaf.map(lambda l: ['neg', l]), int_tree.map(lambda t: ['paren', t]), int_tree.map(lambda t: ['call', 'ID', [t]]), blank_leaf, blank_leaf.map(lambda l: ['call', 'ID', [l]]),
+                        st.just(['str', '', '"']))
 
 
 def amp_chain():
@@ -57,7 +59,7 @@ def _chain(xs):
 
 @st.composite
 def top_tree(draw):
-    kind = draw(st.sampled_from(['arith', 'arith', 'cmp', 'amp', 'ampcmp', 'callcmp']))
+    kind = draw(st.sampled_from(['arith', 'arith', 'cmp', 'amp', 'ampcmp', 'callcmp', 'cmpcmp']))
     if kind == 'arith':
         t = draw(arith_tree)
         if draw(st.booleans()):
@@ -73,6 +75,15 @@ def top_tree(draw):
         t = draw(amp_chain())
     elif kind == 'ampcmp':
         t = ['bin', draw(st.sampled_from(gf.CMP)), draw(amp_chain()), draw(st.one_of(amp_chain(), amp_operand))]
+    elif kind == 'cmpcmp':
+        # a parenthesised comparison (a logical) compared with a small number, next to the same comparison between the numbers themselves
+        small = st.sampled_from([['num', '0'], ['num', '1'], ['num', '2'], ['dec', '1.0'], ['dec', '0.0'], ['var', 'v_one'], ['var', 'v_zero']])
+        a, b, c = draw(small), draw(small), draw(small)
+        op1, op2 = draw(st.sampled_from(gf.CMP)), draw(st.sampled_from(gf.CMP))
+        inner = ['paren', ['bin', op1, a, b]]
+        t = ['bin', op2, inner, c] if draw(st.booleans()) else ['bin', op2, c, inner]
+        if draw(st.booleans()):
+            t = ['arr', [t, ['bin', op2, draw(small), c]]]
     else:
         inner = ['bin', draw(st.sampled_from(gf.CMP)), draw(arith_tree), draw(arith_tree)]
         t = ['call', 'ID', [inner]]
